@@ -697,34 +697,23 @@ where
     __bytes_find(left, pattern.as_bytes())
 }
 pub(crate) const fn __bytes_find(left: &[u8], pattern: &[u8]) -> Option<usize> {
-    let mut matching = pattern;
+    // the highest offset at which `pattern` fits inside of `left`
+    let last = match left.len().checked_sub(pattern.len()) {
+        Some(x) => x,
+        None => return None,
+    };
 
-    crate::for_range! {i in 0..left.len() =>
-        match matching {
-            [mb, m_rem @ ..] => {
-                let b = left[i];
-
-                matching = if b == *mb {
-                    m_rem
-                } else {
-                    match pattern {
-                        // For when the string is "lawlawn" and we are trying to find "lawn"
-                        [mb2, m_rem2 @ ..] if b == *mb2 => m_rem2,
-                        _ => pattern,
-                    }
-                };
-            }
-            [] => {
-                return Some(i - pattern.len())
-            }
+    // Tries every offset in ascending order,
+    // so that overlapping partial matches (eg: finding "aab" in "aaab") aren't skipped.
+    let mut i = 0;
+    while i <= last {
+        if __bytes_start_with(slice_from(left, i), pattern) {
+            return Some(i);
         }
+        i += 1;
     }
 
-    if matching.is_empty() {
-        Some(left.len() - pattern.len())
-    } else {
-        None
-    }
+    None
 }
 
 /// Whether `pattern` is inside `left`.
@@ -779,37 +768,27 @@ where
     __bytes_rfind(left, pattern.as_bytes())
 }
 pub(crate) const fn __bytes_rfind(left: &[u8], pattern: &[u8]) -> Option<usize> {
-    let mut matching = pattern;
-
-    let llen = left.len();
-
-    let mut i = llen;
-
-    while i != 0 {
-        i -= 1;
-
-        match matching {
-            [m_rem @ .., mb] => {
-                let b = left[i];
-
-                matching = if b == *mb {
-                    m_rem
-                } else {
-                    match pattern {
-                        // For when the string is "lawlawn" and we are trying to find "lawn"
-                        [m_rem2 @ .., mb2] if b == *mb2 => m_rem2,
-                        _ => pattern,
-                    }
-                };
-            }
-            [] => return Some(i + (!pattern.is_empty()) as usize),
-        }
+    if pattern.is_empty() {
+        // keeps the result that this function has always had for empty patterns
+        return Some(left.len().saturating_sub(1));
     }
 
-    if matching.is_empty() {
-        Some(i)
-    } else {
-        None
+    // the highest offset at which `pattern` fits inside of `left`
+    let mut i = match left.len().checked_sub(pattern.len()) {
+        Some(x) => x,
+        None => return None,
+    };
+
+    // Tries every offset in descending order,
+    // so that overlapping partial matches (eg: finding "baa" in "baaa") aren't skipped.
+    loop {
+        if __bytes_start_with(slice_from(left, i), pattern) {
+            return Some(i);
+        }
+        if i == 0 {
+            return None;
+        }
+        i -= 1;
     }
 }
 
@@ -1072,55 +1051,19 @@ pub(crate) const fn __bytes_trim_end_matches<'a>(mut this: &'a [u8], needle: &[u
     }
 }
 
-macro_rules! elem_then_rem {
-    ($elem:ident, $($rem:tt)*) => { [$elem, $($rem)*] };
-}
-
-macro_rules! rem_then_elem {
-    ($elem:ident, $($rem:tt)*) => { [$($rem)*, $elem] };
-}
-
+// Implements the `bytes_*find_{skip,keep}` functions on top of `__bytes_find`/`__bytes_rfind`,
+// so that they find the same occurrence of `needle` that those functions do.
 macro_rules! byte_find_then {
-    ($slice_order:ident, $this:ident, $needle:ident, |$next:ident| $then:block) => ({
+    ($finder:ident, $this:ident, $needle:ident, |$pos:ident| $then:expr) => {{
         if $needle.is_empty() {
             return Some($this);
         }
 
-        let mut matching = $needle;
-
-        let mut $next = $this;
-
-        while let $slice_order!(mb, ref m_rem @ ..) = *matching {
-            matching = m_rem;
-
-            if let $slice_order!(b, ref rem @ ..) = *$next {
-                if b != mb {
-                    matching = match *$needle {
-                        // For when the string is "lawlawn" and we are skipping "lawn"
-                        $slice_order!(mb2, ref m_rem2 @ ..) if b == mb2 => {
-                            // This is considered used in half of the macro invocations
-                            #[allow(unused_assignments)]
-                            {$this = $next;}
-                            m_rem2
-                        },
-                        _ => {
-                            // This is considered used in half of the macro invocations
-                            #[allow(unused_assignments)]
-                            {$this = rem;}
-                            $needle
-                        },
-                    };
-                }
-                $next = rem;
-            } else {
-                return None;
-            }
+        match $finder($this, $needle) {
+            Some($pos) => Some($then),
+            None => None,
         }
-
-        $then
-
-        Some($this)
-    });
+    }};
 }
 
 /// Advances `this` past the first instance of `needle`.
@@ -1154,8 +1097,8 @@ where
     let needle = PatternNorm::new(needle);
     __bytes_find_skip(this, needle.as_bytes())
 }
-pub(crate) const fn __bytes_find_skip<'a>(mut this: &'a [u8], needle: &[u8]) -> Option<&'a [u8]> {
-    byte_find_then! {elem_then_rem, this, needle, |next| {this = next}}
+pub(crate) const fn __bytes_find_skip<'a>(this: &'a [u8], needle: &[u8]) -> Option<&'a [u8]> {
+    byte_find_then! {__bytes_find, this, needle, |pos| slice_from(this, pos + needle.len())}
 }
 
 /// Advances `this` up to the first instance of `needle`.
@@ -1189,8 +1132,8 @@ where
     let needle = PatternNorm::new(needle);
     __bytes_find_keep(this, needle.as_bytes())
 }
-pub(crate) const fn __bytes_find_keep<'a>(mut this: &'a [u8], needle: &[u8]) -> Option<&'a [u8]> {
-    byte_find_then! {elem_then_rem, this, needle, |next| {}}
+pub(crate) const fn __bytes_find_keep<'a>(this: &'a [u8], needle: &[u8]) -> Option<&'a [u8]> {
+    byte_find_then! {__bytes_find, this, needle, |pos| slice_from(this, pos)}
 }
 
 /// Truncates `this` to before the last instance of `needle`.
@@ -1224,8 +1167,8 @@ where
     let needle = PatternNorm::new(needle);
     __bytes_rfind_skip(this, needle.as_bytes())
 }
-pub(crate) const fn __bytes_rfind_skip<'a>(mut this: &'a [u8], needle: &[u8]) -> Option<&'a [u8]> {
-    byte_find_then! {rem_then_elem, this, needle, |next| {this = next}}
+pub(crate) const fn __bytes_rfind_skip<'a>(this: &'a [u8], needle: &[u8]) -> Option<&'a [u8]> {
+    byte_find_then! {__bytes_rfind, this, needle, |pos| slice_up_to(this, pos)}
 }
 
 /// Truncates `this` to the last instance of `needle`.
@@ -1259,8 +1202,8 @@ where
     let needle = PatternNorm::new(needle);
     __bytes_rfind_keep(this, needle.as_bytes())
 }
-pub(crate) const fn __bytes_rfind_keep<'a>(mut this: &'a [u8], needle: &[u8]) -> Option<&'a [u8]> {
-    byte_find_then! {rem_then_elem, this, needle, |next| {}}
+pub(crate) const fn __bytes_rfind_keep<'a>(this: &'a [u8], needle: &[u8]) -> Option<&'a [u8]> {
+    byte_find_then! {__bytes_rfind, this, needle, |pos| slice_up_to(this, pos + needle.len())}
 }
 
 /// A const equivalent of
